@@ -22,6 +22,13 @@ func C04() int {
 		l.T = &jt.Tag{Role: jt.Keep}
 		items = append(items, rawItem("other", l, i))
 	}
+	for i, l := range g.CharsetLines() {
+		kind := "other"
+		if l.T == nil {
+			kind = "charset-command"
+		}
+		items = append(items, rawItem(kind, l, i))
+	}
 	// zone lines whose non-zone part is soup: command documents with extra
 	// non-query-bearing members holding arbitrary trees
 	for i := 0; i < pickN(c, 1500, 20000); i++ {
